@@ -197,6 +197,68 @@ OVERLAPPING_EXTENTS = [[HOLE_L, HOLE_NOTCH], [HOLE_NOTCH, HOLE_L], [HOLE_T1, HOL
                        [HOLE_L, HOLE_NOTCH_BOX], [HOLE_NOTCH_BOX, HOLE_L], [HOLE_L, HOLE_NOTCH, HOLE_T2]]
 HOLE_HOSTS = ['square', 'square+collinear', 'hexagon', 'diamond']
 
+# ------------------------------------------------------------------ wide placements
+# Mechanism class covered: any decision of the membership test that depends on the polygon's EXTENT or POSITION in
+# longitude rather than on its edges - the bounding-rectangle prefilter and GeoPolygon.bounds, heuristics that read
+# "spread over more than 180 degrees" as "crosses the antimeridian", the direction the test ray is cast in (it runs
+# east to +180 from a query east of the prime meridian and west to -180 otherwise), sign / hemisphere special cases.
+# The property excludes shapes that span the antimeridian; a polygon that is WIDER than a hemisphere but stays
+# inside [-180, 180) (continental and ocean masks) is not excluded.  The library reads an EDGE whose end points are more
+# than 180 degrees of longitude apart as the short way round (ensure_edge_bounds), so such an outline has intermediate
+# vertices on its long edges: `split_long_edges` inserts them (collinear, float-exact).
+# (label, degrees of longitude per grid step, longitude of grid x = 0): the 0..8 grid then spans 8 steps
+WIDE_PLACEMENTS = [
+    ('160-east', 20, 10), ('160-west', 20, -175), ('160-mid', 20, -80),
+    ('176-mid', 22, -88), ('176-west', 22, -180),
+    ('180-east', F(45, 2), -5), ('180-west', F(45, 2), -175), ('180-mid', F(45, 2), -90),
+    ('184-east', 23, -5), ('184-west', 23, -178), ('184-mid', 23, -92),
+    ('200-mid', 25, -100), ('200-east', 25, -25),
+    ('240-east', 30, -62), ('240-west', 30, -175), ('240-mid', 30, -120),
+    ('320-east', 40, -142), ('320-west', 40, -175), ('320-mid', 40, -160),
+    ('344-east', 43, -166), ('344-west', 43, -178), ('344-mid', 43, -172),
+    ('352-mid', 44, -176),
+]
+WIDE_LAT = [(1, 0), (2, -8), (5, -40), (5, 30), (8, -72), (8, 0), (16, -64), (10, -45)]    # (degrees per grid step, latitude of y = 0)
+
+
+def place(p, sx, ox, sy, oy):
+    return (ox + F(sx) * p[0], oy + F(sy) * p[1])
+
+
+def split_long_edges(ring, rng=None, extra=0.0, limit=180):
+    """open ring -> open ring with the same point set: an edge spanning more than `limit` degrees of longitude gets
+    equally spaced intermediate vertices (halves, quarters, ...); with `rng` some other edges get a midpoint too"""
+    out = []
+    n = len(ring)
+    for i in range(n):
+        a, b = ring[i], ring[(i + 1) % n]
+        out.append(a)
+        k = 1
+        while abs(b[0] - a[0]) > limit * k:
+            k *= 2
+        if k == 1 and rng is not None and rng.random() < extra:
+            k = 2
+        for j in range(1, k):
+            out.append((a[0] + (b[0] - a[0]) * F(j, k), a[1] + (b[1] - a[1]) * F(j, k)))
+    return out
+
+
+def place_hole(h, sx, ox, sy, oy):
+    if h[0] == 'poly':
+        return ('poly', split_long_edges([place(v, sx, ox, sy, oy) for v in h[1]]), h[2])
+    return ('box', place(h[1], sx, ox, sy, oy), place(h[2], sx, ox, sy, oy))
+
+
+def common_scale(vals):
+    s = SCALE
+    for v in vals:
+        s = s * F(v * s).denominator
+    return s
+
+
+def float_exact(vals):
+    return all(F(float(v)) == v for v in vals)
+
 
 def main():
     ck = Check('C01')
@@ -211,6 +273,7 @@ def main():
     nontrivial = set()
     n_eval = 0
     prop_bad = []        # (meta index, detail) : the property itself fails on the implementation
+    prop_box_bad = []    # (case description, detail) : the same for cases that have no correspondence literal (wide boxes)
 
     def add(lit, m):
         cases.append(lit)
@@ -374,6 +437,96 @@ def main():
              'queries': [[str(q[0]), str(q[1]), a, b] for q, a, b in outs]})
         ck.count('random-star')
 
+    # ---------------------------------------------------------------- the grid corpus at continental / hemispheric scales
+    # (see WIDE_PLACEMENTS): the same rings, holes and exhaustive grid / half-grid queries, mapped by
+    # lon = ox + sx * x, lat = oy + sy * y to extents below, exactly and above 180 degrees of longitude (up to 352)
+    # in mostly-eastern, mostly-western and prime-meridian-straddling positions; nothing crosses +-180.  Queries that
+    # would fall outside [-180, 180) x [-90, 90] are dropped (Coordinate would wrap them).  The exact reference is
+    # evaluated on the placed ring WITHOUT the inserted vertices; the model on the stored outline times `scale`.
+    GQ = [(F(x, SCALE), F(y, SCALE)) for y in range(-SCALE, 9 * SCALE + 1) for x in range(-SCALE, 9 * SCALE + 1)]
+
+    def wide_case(name, ring, plc, lat, rot, rev, closed, holes):
+        nonlocal n_eval
+        label, sx, ox = plc
+        sy, oy = lat
+        pring = [place(v, sx, ox, sy, oy) for v in ring]                     # the geometric ring (reference)
+        vring = split_long_edges(pring, rng, extra=0.15)                     # what the library is given
+        pholes = [place_hole(h, sx, ox, sy, oy) for h in holes]
+        qs = [place(q, sx, ox, sy, oy) for q in GQ]
+        qs = [q for q in qs if -180 <= q[0] < 180 and -90 <= q[1] <= 90]
+        coords = [c for v in vring + qs for c in v] + [c for h in pholes for v in (h[1] if h[0] == 'poly' else h[1:]) for c in v]
+        assert float_exact(coords) and all(-180 <= v[0] < 180 and abs(v[1]) <= 80 for v in vring), (name, plc, lat)
+        assert all(abs(a[0] - b[0]) <= 180 for a, b in zip(vring, vring[1:] + vring[:1])), (name, plc)
+        s = common_scale(coords)
+        w = -180 * s
+        raw = variant(vring, rot % len(vring), rev, closed)
+        poly, hm = mk_poly(raw, pholes)
+        if (rot + len(raw)) % 2 == 0:
+            guarded(lambda: (poly.bounds, poly.area, poly.centroid, hash(poly), poly.to_wkt()))
+        stored = outline_of(poly)
+        width = max(v[0] for v in pring) - min(v[0] for v in pring)
+        cls = 'below-180' if width < 180 else ('exactly-180' if width == 180 else 'above-180')
+        add(f'KNorm false {ringlit(raw, s)} {ringlit(stored, s)}',
+            {'k': 'norm', 'ring': name, 'placement': label, 'raw': [list(map(str, v)) for v in raw]})
+        outs = []
+        i = len(cases)
+        for q in qs:
+            c = C(q)
+            a = GeoPolygon._point_in_polygon(c, poly.outline)
+            b = poly.contains_coordinate(c)
+            outs.append((q, a, b))
+            n_eval += 1
+            st = ref_ring(q, pring)
+            if st == 'boundary' or any(v[1] == q[1] for v in pring):
+                nontrivial.add((name, label, lat, rot, rev, closed, len(holes), q))
+            want = ref_poly(q, pring, pholes)
+            if b != want:
+                prop_bad.append((i, {'query': [str(q[0]), str(q[1])], 'contains_coordinate': b, 'exact_reference': want,
+                                     'position_wrt_outer': st, 'longitude_extent_of_outline': str(width)}))
+            if not holes and a != (st == 'in'):
+                prop_bad.append((i, {'query': [str(q[0]), str(q[1])], '_point_in_polygon': a, 'exact_reference': st,
+                                     'longitude_extent_of_outline': str(width)}))
+        add(f'KPts {zlit(w)} {ringlit(stored, s)} {listlit([holelit(m, s) for m in hm])} '
+            + listlit([f'({ptlit(q, s)}, {blit(a)}, {blit(b)})' for q, a, b in outs]),
+            {'k': 'pts', 'ring': name, 'placement': label, 'longitude_extent': str(width), 'degrees_per_step': [str(sx), str(sy)],
+             'origin': [str(ox), str(oy)], 'outline': [[str(x), str(y)] for x, y in pring], 'rot': rot, 'rev': rev, 'closed': closed,
+             'raw': [[str(x), str(y)] for x, y in raw], 'holes': [hole_json(h) for h in pholes], 'scale': s,
+             'queries': [[str(q[0]), str(q[1]), a, b] for q, a, b in outs]})
+        ck.count('wide:' + cls + (':holes' if holes else ''))
+        ck.count('wide-placement:' + label.split('-')[1])
+
+    for plc in WIDE_PLACEMENTS:
+        sel = rng.sample(rings, 12) if thorough else rng.sample(rings[:len(FIXED_RINGS)], 2) + [rng.choice(rings[len(FIXED_RINGS):])]
+        for name, ring in sel:
+            wide_case(name, ring, plc, rng.choice(WIDE_LAT), rng.randrange(len(ring)), rng.random() < 0.5, rng.random() < 0.5, [])
+        nm, ring = rng.choice(hosts)
+        hs = rng.choice(combos + OVERLAPPING_EXTENTS) if nm.startswith('square') else rng.choice(combos)
+        wide_case(nm, ring, plc, rng.choice(WIDE_LAT), rng.randrange(len(ring)), rng.random() < 0.5, True, hs)
+    # boxes wider than a hemisphere (inclusive corner comparison; judged by the exact reference only: the box grid case
+    # of the correspondence enumerates unit steps)
+    for plc in (WIDE_PLACEMENTS if thorough else rng.sample(WIDE_PLACEMENTS, 6)):
+        label, sx, ox = plc
+        sy, oy = rng.choice(WIDE_LAT)
+        nw, se = rng.choice(boxes[:2])
+        hs = rng.choice([[], [HOLE_LIB[0]], [HOLE_LIB[4]], [HOLE_LIB[1], HOLE_LIB[5]]])
+        pnw, pse = place(nw, sx, ox, sy, oy), place(se, sx, ox, sy, oy)
+        phs = [place_hole(h, sx, ox, sy, oy) for h in hs]
+        hobj = [mk_hole(h) for h in phs]
+        box = GeoBox(C(pnw), C(pse), holes=[o for o, _ in hobj] or None)
+        for q in GQ:
+            q = place(q, sx, ox, sy, oy)
+            if not (-180 <= q[0] < 180 and -90 <= q[1] <= 90):
+                continue
+            b = box.contains_coordinate(C(q))
+            n_eval += 1
+            want = ref_box(q, pnw, pse, phs)
+            if b != want and len(prop_box_bad) < 5:
+                prop_box_bad.append(({'k': 'box', 'placement': label, 'nw': [str(pnw[0]), str(pnw[1])], 'se': [str(pse[0]), str(pse[1])],
+                                      'holes': [hole_json(h) for h in phs],
+                                      'scale': common_scale([*pnw, *pse, *q] + [c for h in phs for v in (h[1] if h[0] == 'poly' else h[1:]) for c in v])},
+                                     {'query': [str(q[0]), str(q[1])], 'contains_coordinate': b, 'exact_reference': want}))
+        ck.count('wide-box')
+
     # ---------------------------------------------------------------- find_line_intersection directly
     def fli_case(s1, s2):
         nonlocal n_eval
@@ -422,6 +575,10 @@ def main():
                       'all_failing_queries_of_case': [d for j, d in prop_bad if j == i][:20],
                       'theorems': 'C01_pip_exact / C01_poly_contains_spec / C01_box_contains_spec',
                       'how_to_replay': 'bin/check C01 --replay <this file>'})
+        reported += 1
+    for m, detail in prop_box_bad[:max(0, 5 - reported)]:
+        ck.violation({'kind': 'property-fails-on-implementation', 'case': m, 'failing_query': detail,
+                      'theorems': 'C01_box_contains_spec', 'how_to_replay': 'bin/check C01 --replay <this file>'})
         reported += 1
     for i in bad:
         if reported >= 5:
